@@ -180,13 +180,13 @@ class Path:
 
 class Engine:
     def __init__(self, contracts=None, inline=None, merge_calls=None, subst=None, package='armulator',
-                 query_timeout_ms=20000, max_paths=20000, loop_bound=64):
+                 query_timeout_ms=20000, max_paths=20000, loop_bound=64, logic='QF_UFBV'):
         self.contracts = contracts or {}
         self.inline = set(inline or ())          # functions whose contract is NOT used (unit under test)
         self.merge_calls = set(merge_calls or ())
         self.subst = subst or {}                 # id(native object) -> engine value
         self.package = package
-        self.solver = z3.SolverFor('QF_UFBV')
+        self.solver = z3.SolverFor(logic)
         self.solver.set('timeout', query_timeout_ms)
         self.query_timeout_ms = query_timeout_ms
         self.max_paths = max_paths
@@ -436,6 +436,11 @@ class Engine:
                 ob.status = 'proved'
             elif r == z3.sat:
                 ob.status = 'failed'
+                hints = getattr(self, 'small_model_hints', None)
+                if hints:
+                    r2, m2 = self._check(z3.Not(c), *hints)      # prefer a counterexample that can be replayed natively
+                    if r2 == z3.sat:
+                        m = m2
                 ob.model = self.model_inputs(m)
                 ob.z3model = m
             else:
@@ -538,6 +543,7 @@ class Engine:
             self.inputs = {}
             self._models = []
             self.model_hook = None
+            self.small_model_hints = None
             self.depth = 0
             try:
                 data = thunk(self)
